@@ -2,9 +2,10 @@
 //
 // Part A (adapter level, the core): every history of <= 3 (quick) / <= 4 (+ text-only 5, thorough)
 // broadcasts over 8 emit kinds x {text, binary}, every disconnect point k, every reconnection time in
-// {1, 59, 61, 119, 121, 181} s, each executed on the real session-aware adapter (production window
-// handling and 60 s cleaner) in virtual time and judged against a reference model with a three-valued
-// expectation (must / may / must-not recover). Two sessions recover from the same log.
+// {1, 59, 61, 119, 121, 181} s, packets 10 s or 35 s apart, each executed on the real session-aware
+// adapter (production window handling and 60 s cleaner) in virtual time and judged against a reference
+// model with a three-valued expectation (must / may / must-not recover). Two sessions recover from the
+// same log. One vsched.Run per case; cases are sharded over worker processes.
 // Part B (server level, rig R1): the same model driven through sio.Server; the harness is the
 // protocol-level client and decodes the replayed frames itself.
 // Part C (Go client, rig R3): sio.Manager tracking its own offset across a link cut.
@@ -303,8 +304,9 @@ func main() {
 	}
 	deadline := time.Now().Add(budget)
 	r := vx.NewReport("C08", *tier, "model_checking")
-	r.Rule = "adapter level: every history of <= 3 (quick) / <= 4 plus text-only 5 (thorough) packets over 8 emit kinds {all, r1, r2, r1 except r2, all except S, direct to S, direct to T, direct to S with ack id} x {text, binary}, x every disconnect point k in 0..len, x reconnection 1/59/61/119/121/181 s after the disconnect (window 120 s, production cleaner every 60 s), each (history, k, delta) executed once on the real session-aware adapter in virtual time; two sessions (S in {S,r1}, T in {T,r2}) recover from the same log; judged against a reference model with a three-valued expectation. " +
-		"server level: the same model through a recovery-enabled sio.Server and a protocol-level client (rig R1) for short histories, plus scripted scenarios (unknown pid/offset, recovery twice in a row, live events after recovery). Go client: sio.Manager over the in-process polling link (rig R3) with a link cut. " +
+	r.Rule = "adapter level: every history of <= 3 (quick) / <= 4 plus text-only 5 (thorough) packets over 8 emit kinds {all, r1, r2, r1 except r2, all except S, direct to S, direct to T, direct to S with ack id} x {text, binary}, x every disconnect point k in 0..len, x reconnection 1/59/61/119/121/181 s after the disconnect (window 120 s, production cleaner every 60 s), x packets 10 s or 35 s apart before the disconnect (the slow profile puts clean-up passes inside the live phase and makes offsets much older than the disconnect); each (history, k, delta, spacing) is executed once on the real session-aware adapter in virtual time; two sessions (S in {S,r1}, T in {T,r2}) recover from the same log; judged against a reference model with a three-valued expectation (must / may / must-not recover). " +
+		"server level: the same model through a recovery-enabled sio.Server and a protocol-level client that decodes the frames itself (rig R1): histories of <= 2 (quick; deltas 1/61/121 s) / <= 3 (thorough; all deltas, both spacings), plus scripted scenarios (10-packet mixed history, unknown pid, never-logged offset, DISCONNECT instead of a cut, recovery twice in a row, two sessions recovering the same binary packets, live events after every reconnection). " +
+		"Go client: sio.Manager over the in-process polling link (rig R3), one scenario per handler signature (2 live events, link down until both sides noticed, 2 events while away, link up, 1 more event). " +
 		"distinct_nontrivial = cases in which session S has an offset and the model replays at least one packet (adapter + server level) + client scenarios"
 	r.Assumptions = []string{
 		"vsched semantics and virtual time: time.Now/Sleep inside the repository are the scheduler's clock, so the 60 s cleaner and the 120 s window run for real; every case runs at the default schedule (the adapter calls of one case are sequential)",
